@@ -170,3 +170,30 @@ Definition boundaries_ok (z : rmsg) : bool :=
   (negb (Nat.leb 2 (length (Writer.m_parts m))) || is_token (m_balt m))
   && (negb (Nat.leb 1 (length (z_embeds z))) || is_token (m_brelated m))
   && (negb (Nat.leb 1 (length (z_attach z))) || is_token (m_bmixed m)).
+
+(* ---------- the parsed state, in full ---------- *)
+Definition part_obs (m : Writer.msg) (p : Writer.part) : pobs :=
+  mkp (Writer.p_ctype p) charset_utf8 (enc_name (Writer.p_enc p))
+      (expected_content (Writer.p_enc p) (content_of (p_prod p))).
+Definition file_obs (is_att : bool) (f : Writer.file) : fobs :=
+  mkf (f_name f) (if is_att then [] else bs "<" ++ f_name f ++ bs ">") (content_of (f_prod f)).
+
+(* the generic headers parseEMLHeaders stores for a rendering of a feature-set message *)
+Definition parsed_gen (d i sv : bytes) : list (bytes * bytes) :=
+  [(hdr_date, d); (hdr_message_id, i); (hdr_mime_version, bs "1.0"); (hdr_subject, sv);
+   (hdr_user_agent, user_agent); (hdr_x_mailer, user_agent)].
+
+(* Msg.encoding after the parse: the part's for a single-part message, the default otherwise *)
+Definition expected_enc (m : Writer.msg) : bytes :=
+  match Writer.m_parts m, m_embeds m, m_attach m with
+  | [p], [], [] => enc_name (Writer.p_enc p)
+  | _, _, _ => enc_qp
+  end.
+
+Definition parsed_as (d i : bytes) (m : Writer.msg) (st : mstate) : Prop :=
+  Eml.m_charset st = charset_utf8 /\ m_enc st = expected_enc m /\
+  Eml.m_parts st = map (part_obs m) (Writer.m_parts m) /\
+  m_embs st = map (file_obs false) (m_embeds m) /\
+  m_atts st = map (file_obs true) (m_attach m) /\
+  (exists sv, gen_value hdr_subject m = Some sv /\ Eml.m_gen st = parsed_gen d i sv) /\
+  m_addrs st = mka (match m_from m with Some f => [f] | None => [] end) (addr_list hdr_to m) (addr_list hdr_cc m) [].
